@@ -409,7 +409,7 @@ pub fn replay(ctx: &Ctx, check: &str, tape: &[u8]) -> Verdict {
     let stats = Stats::new();
     let rec = Rec::new(&stats, false);
     match check {
-        "real_primes" => real_prime_case(tape, &rec),
+        "real_primes" | "fuzz_field_ops" => real_prime_case(tape, &rec),
         "small_exhaustive" => {
             let p = String::from_utf8_lossy(tape).trim().parse::<u128>().unwrap_or(3);
             exhaustive_small(p, &stats)
@@ -532,6 +532,10 @@ pub fn run(ctx: &Ctx) -> i32 {
             .collect(),
     );
     stats.exhaustive.store(false, std::sync::atomic::Ordering::Relaxed);
+    let fuzz = fuzz_stage(ctx, &stats, &mut outcome, &known, "field_ops", 8, 1_500_000, 96, &[], &|a| {
+        let st = Stats::new();
+        real_prime_case(a, &Rec::new(&st, false))
+    });
 
     finish(
         ctx,
@@ -545,7 +549,7 @@ pub fn run(ctx: &Ctx) -> i32 {
                 "reference semantics transcribed from the Circom operator documentation; ~ is the 256-bit complement as circomspect documents it".into(),
                 "an error result is accepted for shifts whose effective count exceeds the bit size of p; for zero divisors an error is required".into(),
             ],
-            extra: json!({"small_primes_exhaustive": primes.iter().map(|p| *p as u64).collect::<Vec<_>>(), "exhaustive_part": "small prime fields are enumerated completely; real primes are sampled"}),
+            extra: json!({"small_primes_exhaustive": primes.iter().map(|p| *p as u64).collect::<Vec<_>>(), "exhaustive_part": "small prime fields are enumerated completely; real primes are sampled", "coverage_guided_stage": fuzz}),
         },
         start,
     )
